@@ -75,7 +75,8 @@ func pick(rng *rand.Rand, class string, n int) string {
 		case "X":
 			x := xchars[rng.Intn(len(xchars))]
 			if b.Len()+len(x) > n {
-				x = string([]byte{"gzGZ +-_xX:\x00\n/.\x10\x19\x7f\xff"[rng.Intn(20)]})
+				const one = "gzGZ +-_xX:\x00\n/.\x10\x19\x7f\xff"
+				x = string([]byte{one[rng.Intn(len(one))]})
 			}
 			b.WriteString(x)
 		}
